@@ -666,6 +666,9 @@ def _r17_5(prog: Program, res: Result) -> None:
                             n += 1
                             got = PYOP.get(type(v.ops[0]))
                             order_ok = _evaluates(prog, fn, v.left, s, "left") and _evaluates(prog, fn, v.comparators[0], s, "comparators")
+                            if not order_ok and _evaluates(prog, fn, v.left, s, "comparators") and _evaluates(prog, fn, v.comparators[0], s, "left"):
+                                # `right < left` is `left > right`: the mirrored operator on swapped operands
+                                got, order_ok = MIRROR.get(got), True
                             res.decide(got == cls and order_ok, "R17.5", fn.loc(s), fn.fq, f"{cls}: {norm(v)}",
                                        "folds with the operator it tested for" if got == cls and order_ok else
                                        f"branch for ast.{cls} folds with {got} / operands {norm(v.left)}, {norm(v.comparators[0])}")
